@@ -129,6 +129,14 @@ CLAIMS.update({
    design="3/C15"),
 })
 
+CLAIMS.update({
+ 'C07': dict(
+   text="Deviation-bounded exhaustive exploration (X1) of the real client <-> real server pair under a strict wake-only executor. Deviations: at every transport call an injected write error / zero-length write / read error / EOF with in-flight octets lost / non-HTTP/2 octets / shutdown Pending or error (also after a partial write or read in the byte-offset pass); at every poll of a connection object the application dropping it instead; another runnable task first. The scenarios put every kind of wait in flight when the ending strikes: response futures, body and trailer reads (immediate and late readers), capacity waits, reset waits, requests parked for a concurrency slot, accept, user ping, graceful and abrupt user shutdown. For every execution with <= k deviations (quick k=3 without / k=2 with byte offsets), at quiescence: no livelock, no application task still waiting on a handle, both connection futures completed, and every message whose frames up to END_STREAM had all been handed to the receiving endpoint before the ending is delivered to its application completely and without error.",
+   note="Clause 'complete messages are still delivered' is skipped when the ending is a write-side fault at the receiving endpoint itself (whether buffered octets count as received is ambiguous there) and for requests the server application was never handed. Applications that stop polling their handles are outside the model.",
+   tech="stateless deviation-bounded schedule and fault exploration of the real implementation (CHESS-style iterative bounding over scheduling, transport-fault and drop points)",
+   design="3/C07"),
+})
+
 NOT_YET = "check not built yet (work in progress; DESIGN.md section 3 describes the planned harness)"
 NA = {}
 
